@@ -1,16 +1,20 @@
 #!/bin/sh
 # usage: mutant.sh <patch.diff> <prop> [<prop>...]   (env TIER=quick|thorough, SKIP_BASELINE=1)
-# applies a property-breaking change to /repo, checks the repository's own tests still pass, runs the checks
-# (each must exit 1 with a VIOLATION line), and ALWAYS restores /repo.
+# Applies a property-breaking change to a SCRATCH worktree of /repo's HEAD (never to /repo itself, so that checks
+# running elsewhere at the same time keep seeing the real tree), checks that the repository's own tests still pass,
+# and runs the checks against that worktree (VERIF_REPO); each must exit 1 with a VIOLATION line.  Evidence and
+# replays of these runs go to /var/tmp/verif_mut/results, never to /verif/evidence.  The worktree is removed.
 P=$(readlink -f "$1"); shift
-cd /repo || exit 2
-if [ -n "$(git status --porcelain)" ]; then echo "mutant: /repo not clean"; exit 2; fi
-git apply "$P" || { echo "mutant: patch does not apply"; exit 2; }
-trap 'git -C /repo checkout -- . ; git -C /repo clean -fdq' EXIT INT TERM
+WT=/var/tmp/mutant_wt_$$
+git -C /repo worktree prune
+git -C /repo worktree add --detach "$WT" HEAD >/dev/null 2>&1 || { echo "mutant: cannot create worktree"; exit 2; }
+trap 'git -C /repo worktree remove --force '"$WT"' 2>/dev/null; rm -rf '"$WT" EXIT INT TERM
+git -C "$WT" apply "$P" || { echo "mutant: patch does not apply"; exit 2; }
 rc_all=0
 if [ -z "$SKIP_BASELINE" ]; then
-  /verif/bin/baseline.sh /repo | head -5 || { echo "mutant: BASELINE FAILS with this change (not a valid mutant)"; rc_all=3; }
+  /verif/bin/baseline.sh "$WT" | head -5 || { echo "mutant: BASELINE FAILS with this change (not a valid mutant)"; rc_all=3; }
 fi
+export VERIF_REPO="$WT" VERIF_SCRATCH=/var/tmp/verif_mut VERIF_RESULTS=/var/tmp/verif_mut/results
 for prop in "$@"; do
   /verif/bin/vcheck "$prop" --tier "${TIER:-quick}" > /var/tmp/mutant_$prop.log 2>&1
   rc=$?
